@@ -44,6 +44,11 @@ class Ctx:
         read_all = isinstance(detail, str) and detail.startswith('READ: ')
         if read_all:
             detail = detail[6:]
+        if isinstance(detail, str) and detail.startswith('READ!: '):
+            # the claim is about an operation whose meaning does not depend on what the storage it is applied to holds (bisect_left counts strictly-earlier entries
+            # of whatever list it is given): none of the "unread evidence" criteria applies
+            self._rec('VIOLATION', rule, instance, where, detail[7:], key)
+            return
         # A deviation is claimed only for code that was read.  Evidence that speaks of private storage the pinned tree did not have (self._accounts[...] where the
         # rule talks about self.portfolios[...]) shows a representation this rule does not relate to the fields it is stated over: left open, not reported.
         try:
